@@ -6,6 +6,7 @@ import (
 	"errors"
 	"net"
 	"slices"
+	"strconv"
 	"sync"
 	"time"
 
@@ -214,6 +215,16 @@ func (cj *CookieJar) parseCookiesFromResp(host, path []byte, resp *fasthttp.Resp
 			cookies = slices.Delete(cookies, i, i+1)
 		}
 
+		// Max-Age decides over Expires (RFC 6265, 5.3): a lifetime counts from now, a non-positive
+		// value deletes the cookie. fasthttp keeps neither "Max-Age=0" (0 means unset) nor negative values.
+		if age, ok := maxAgeOf(value); ok {
+			if age <= 0 {
+				c.SetExpire(now.Add(-time.Second))
+			} else {
+				c.SetExpire(now.Add(time.Duration(age) * time.Second))
+			}
+		}
+
 		if c.Expire().Equal(fasthttp.CookieExpireUnlimited) || c.Expire().After(now) {
 			cookies = append(cookies, c)
 		} else {
@@ -221,6 +232,19 @@ func (cj *CookieJar) parseCookiesFromResp(host, path []byte, resp *fasthttp.Resp
 		}
 	})
 	cj.hostCookies[hostStr] = cookies
+}
+
+// maxAgeOf returns the value of the Max-Age attribute of a Set-Cookie header value.
+func maxAgeOf(setCookie []byte) (int, bool) {
+	attrs := bytes.Split(setCookie, []byte{';'})
+	for _, attr := range attrs[1:] {
+		attr = bytes.TrimSpace(attr)
+		if len(attr) > 8 && bytes.EqualFold(attr[:8], []byte("max-age=")) {
+			n, err := strconv.Atoi(string(attr[8:]))
+			return n, err == nil
+		}
+	}
+	return 0, false
 }
 
 // Release releases all stored cookies. After this, the CookieJar is empty.
